@@ -69,6 +69,9 @@ class StateInline(StateBase):
         # backticklength => last seen position
         self.backticks: dict[int, int] = {}
         self.backticksScanned = False
+        # start of the earliest scan that reached the end of the text: only from
+        # there on the positions in `backticks` are known to be complete
+        self.backticksScannedFrom = 0
 
         # Counter used to disable inline linkify-it execution
         # inside <a> and markdown links
